@@ -34,7 +34,7 @@ ASSUMPTIONS = ["deterministic base learners and fixed random_state, so that equa
 EXHAUSTIVE = {"quick": ["all operation sequences of length <= 2 and all sequences of length 3 that end in a fit, per kit and data variant"],
               "thorough": ["all operation sequences of length <= 4 per kit and data variant"]}
 OPS = ["fit1", "fit2", "predict", "pickle", "clone"]
-KITS = ["to_prefit", "to_fit", "eg_nu", "eg_nu_none", "grid", "corr", "adv_clf", "adv_reg", "adv_clf_dropout", "corr_df"]
+KITS = ["to_prefit", "to_fit", "eg_nu", "eg_nu_none", "grid", "corr", "adv_clf", "adv_reg", "adv_clf_dropout", "corr_df", "grid_custom"]
 VARIANTS = ["other_size", "other_width"]
 
 
@@ -53,6 +53,8 @@ def cases(tier, seed):
     out = []
     for kit in KITS:
         for var in VARIANTS:
+            if kit == "grid_custom" and var == "other_width":
+                continue  # the user's grid is written for two groups
             use = seqs
             if tier == "quick":
                 use = [s for s in seqs if len(s) <= 2 or s[-1].startswith("fit")]
@@ -102,6 +104,11 @@ def make(kit):
         return red.ExponentiatedGradient(ExactLearner("cells"), red.EqualizedOdds(difference_bound=0.05), eps=0.1, max_iter=8)
     if kit == "grid":
         return red.GridSearch(ExactLearner("thresholds"), red.TruePositiveRateParity(difference_bound=0.05), grid_size=9, grid_limit=2.0)
+    if kit == "grid_custom":
+        # a user-supplied grid of multiplier vectors with its own column labels (index = the moment's constraint ids for 2 groups)
+        idx = pd.MultiIndex.from_tuples([(s_, "all", g_) for s_ in ("+", "-") for g_ in ("a", "b")], names=["sign", "event", "group_id"])
+        grid = pd.DataFrame({"favour_a": [0.0, 1.5, 1.5, 0.0], "unconstrained": [0.0, 0.0, 0.0, 0.0], "favour_b": [1.5, 0.0, 0.0, 1.5]}, index=idx)
+        return red.GridSearch(ExactLearner("cells"), red.DemographicParity(difference_bound=0.05), grid=grid)
     if kit == "corr":
         return CorrelationRemover(sensitive_feature_ids=[1], alpha=0.7)
     if kit == "corr_df":
@@ -152,7 +159,7 @@ def fingerprint(kit, est, D):
     if kit.startswith("eg"):
         return {"pmf": np.asarray(est._pmf_predict(P)), "pred": np.asarray(est.predict(P, random_state=0)), "weights": np.asarray(est.weights_, float),
                 "best_gap": np.asarray([est.best_gap_]), "n_predictors": np.asarray([len(est.predictors_)])}
-    if kit == "grid":
+    if kit in ("grid", "grid_custom"):
         return {"pred": np.asarray(est.predict(P)), "lambda": est.lambda_vecs_.to_numpy(float), "best_idx": np.asarray([est.best_idx_]),
                 "objectives": np.asarray(est.objectives_, float)}
     if kit == "corr":
@@ -203,6 +210,9 @@ def params_snapshot(est):
             out[k] = ("value", v)
         elif isinstance(v, (list, tuple)):
             out[k] = ("value", repr(v))
+        elif isinstance(v, (pd.DataFrame, pd.Series, np.ndarray)):
+            # data-like parameters are compared by content (an in-place rewrite keeps the identity)
+            out[k] = ("value", repr(list(map(str, getattr(v, "columns", [])))) + repr(list(map(str, getattr(v, "index", [])))) + repr(np.asarray(v).tolist()))
         else:
             out[k] = ("object", id(v), type(v).__name__)
     return out
